@@ -232,7 +232,31 @@ func GenSteps(t *rapid.T, n int, distinctRoots bool, cancelWeight int) []Step {
 		}
 		pre = append(pre, Step{Op: &op})
 	}
-	return append(pre, rapid.SliceOfN(stepGen, 1, n).Draw(t, "steps")...)
+	steps := append(pre, rapid.SliceOfN(stepGen, 1, n).Draw(t, "steps")...)
+	// a common maintenance sequence: one node of a registered pipeline is replaced by a new instance under the same
+	// id and the pipeline is registered again with an UNCHANGED definition; the next Send must use the new node
+	if rapid.IntRange(0, 2).Draw(t, "reRegisterUnchanged") == 0 {
+		var regs []int
+		for i, st := range steps {
+			if st.Op != nil && st.Op.K == "regpipe" && len(st.Op.IDs) >= 2 {
+				regs = append(regs, i)
+			}
+		}
+		if len(regs) > 0 {
+			i := regs[rapid.IntRange(0, len(regs)-1).Draw(t, "reRegisterWhich")]
+			def := *steps[i].Op
+			def.IDs = append([]string(nil), def.IDs...)
+			def.Pol, def.Dress = 0, 0
+			id := def.IDs[rapid.IntRange(0, len(def.IDs)-1).Draw(t, "replacedNode")]
+			repl := model.Op{K: "regnode", N: id, NT: IntendedType(id)}
+			send := GenSend(t, distinctRoots, 0)
+			send.ET, send.Ctx, send.Reentrant = def.ET, 0, nil
+			at := rapid.IntRange(i+1, len(steps)).Draw(t, "reRegisterAt")
+			ins := []Step{{Op: &repl}, {Op: &def}, {Send: send}}
+			steps = append(steps[:at:at], append(ins, steps[at:]...)...)
+		}
+	}
+	return steps
 }
 
 // ErrKindsFor converts the by-id error flavours into a by-instance map.
